@@ -1,5 +1,6 @@
 import KrroodVerif.Sexp
 import KrroodVerif.Model.Dom
+import KrroodVerif.Model.DomShape
 import KrroodVerif.Model.Eql
 import KrroodVerif.Drive.EqlParse
 import KrroodVerif.Drive.C01
@@ -13,6 +14,7 @@ def showOut : Option Out → String
   | some (.val x) => toString x
   | some .stop => "stop"
   | some .runtimeError => "RuntimeError"
+  | some .valueError => "ValueError"
 
 def parseOp : Sexp → Option Op
   | .list [.atom "start", i] => i.asNat?.map Op.start
@@ -24,16 +26,49 @@ def parseSat : Sexp → Option (Nat × List Nat)
   | .list (i :: xs) => do pure ((← i.asNat?), (← xs.mapM Sexp.asNat?))
   | _ => none
 
-/-- `(sched (n N) (sats (i e…)…) (ops …))`: interleaved single-variable query iterators over one shared variable -/
+/-- `(shape PHASE1 CACHEDONLY CACHEWHEN SOURCE ATEND TRUTH)`: the `IterShape` the harness regenerated from the current
+`HashedIterable.__iter__` / `__bool__` (`harness/translate/c03_translate.py`) -/
+def parseShape : List Sexp → Option IterShape
+  | [.atom p, .atom co, .atom cw, .atom so, .atom ae, .atom tr] => do
+    let p ← match p with | "liveView" => some Phase1.liveView | "snapshot" => some .snapshot | "index" => some .index | _ => none
+    let co ← match co with | "0" => some false | "1" => some true | _ => none
+    let cw ← match cw with
+      | "beforeYield" => some CacheWhen.beforeYield | "afterYield" => some .afterYield | "atEnd" => some .atEnd
+      | "never" => some .never | _ => none
+    let so ← match so with | "shared" => some SourceUse.shared | "takeOver" => some .takeOver | _ => none
+    let ae ← match ae with | "keep" => some EndAction.keep | "release" => some .release | _ => none
+    let tr ← match tr with
+      | "valuesOrSource" => some Truth.valuesOrSource | "valuesOnly" => some .valuesOnly | "sourceOnly" => some .sourceOnly
+      | _ => none
+    pure { phase1 := p, cachedOnly := co, cacheWhen := cw, source := so, atEnd := ae, truth := tr }
+  | _ => none
+
+/-- `(sched (n N) (sats (i e…)…) (ops …) [(shape …)])`: interleaved single-variable query iterators over one shared
+variable. `model=`: with a `(shape …)` item that satisfies `IterOk`, the machine INTERPRETED from that shape (`runS`:
+the code as the translator read it in this run — today's `shape`, the repaired `shapeIdx`, or the snapshot variant);
+otherwise the hand-written machine of today's code (`run`). `interp=` (information only, never compared): `runS` of
+whatever shape was given. F-C03-1 is triggered by an overlapping schedule unless the shape is `IterFullOk` (then
+`C03_shape_full` says there is nothing to trigger). -/
 def runSched (items : List Sexp) : Option String := do
   let n ← match Sexp.field? items "n" with | some [x] => x.asNat? | _ => none
   let sats ← (← Sexp.field? items "sats").mapM parseSat
   let ops ← (← Sexp.field? items "ops").mapM parseOp
+  let shp ← match Sexp.field? items "shape" with
+    | none => some none
+    | some l => (parseShape l).map some
   let satf := fun i => (sats.lookup i).getD []
-  let m := run satf (init n) ops
+  let sh := fun (l : List (Option Out)) => " ".intercalate (l.map showOut)
+  let today := run satf (init n) ops
   let sp := specRun n satf [] ops
-  let trig := if sequential ops then "" else "F-C03-1"
-  pure s!"model={" ".intercalate (m.map showOut)}\tspec={" ".intercalate (sp.map showOut)}\ttrig={trig}"
+  match shp with
+  | none =>
+    let trig := if sequential ops then "" else "F-C03-1"
+    pure s!"model={sh today}\tspec={sh sp}\ttrig={trig}"
+  | some s =>
+    let it := runS s satf (initS n) ops
+    let m := if s.ok then it else today
+    let trig := if sequential ops || s.fullOk then "" else "F-C03-1"
+    pure s!"model={sh m}\tinterp={sh it}\tspec={sh sp}\ttrig={trig}"
 
 open KrroodVerif.Eql KrroodVerif.Drive.EqlParse in
 /-- `(multi (order (qi k)…) (objs …) (doms …) (queries (qq (sel …) (cond …))…))`: the listed query objects (sharing
